@@ -215,6 +215,9 @@ Cond_C12_Whole == (Has /\ Ev.ev = "whole") =>
                  /\ DataOK(0, Ev.n)
                  /\ \A m \in 1 .. Len(Ev.failed) :
                        \E i \in Idx(B) : B[i].c = Ev.failed[m] /\ B[i].lo = Ev.n
+\* the preloading view needs every block of the file: an unavailable one makes it fail
+Cond_C12_Preload == (Has /\ Ev.ev = "opennode" /\ Ev.how = "preload") =>
+                 ((~NoFault \/ (missing \cap (AllC \ {B[1].c})) # {}) => Ev.e # "nil")
 Cond_C12_NoBudget == Cond_C04_NoBudget
 
 \* C20: first requests follow the depth-first link-order walk
@@ -241,6 +244,7 @@ Inv_C05_Seek == Chk("Inv_C05_Seek", Cond_C05_Seek)
 Inv_C05_Open == Chk("Inv_C05_Open", Cond_C05_Open)
 Inv_C05_Subset == Chk("Inv_C05_Subset", Cond_C05_Subset)
 Inv_C06_Preload == Chk("Inv_C06_Preload", Cond_C06_Preload)
+Inv_C12_Preload == Chk("Inv_C12_Preload", Cond_C12_Preload)
 Inv_C12_Read == Chk("Inv_C12_Read", Cond_C12_Read)
 Inv_C12_Whole == Chk("Inv_C12_Whole", Cond_C12_Whole)
 Inv_C12_NoBudget == Chk("Inv_C12_NoBudget", Cond_C12_NoBudget)
